@@ -12,6 +12,7 @@ func init() {
 	drivers["C03"] = func(c *ctxT) { runKe(c, true) }
 	drivers["C02"] = func(c *ctxT) {
 		runKe(c, false)
+		concSendCases(c)
 		// the same property one level up: what a Channel hands to the application comes from the key it is bound to
 		runC05n(c, c.scale(60, 1500))
 	}
